@@ -32,7 +32,7 @@ var errBoom = errors.New("boom")
 
 // one completed operation of the history
 type op struct {
-	kind     int // 0 deref, 1 reset, 2 swap-add, 3 failing swap
+	kind     int // 0 deref, 1 reset, 2 swap-add, 3 failing swap, 4 swap-add that may give up
 	arg      int
 	res      MalType
 	failed   bool
@@ -87,6 +87,12 @@ func run(a MalType, kind int, arg int, other MalType) op {
 		}}
 		o.kind = 2
 		o.res, err = builtin("swap!").Fn(ctx, []MalType{a, f})
+	case 7: // swap! under a context that is already cancelled: it is applied, or it gives up and changes nothing
+		c2, cancel := context.WithCancel(ctx)
+		cancel()
+		add := Func{Fn: func(_ context.Context, xs []MalType) (MalType, error) { return xs[0].(int) + xs[1].(int), nil }}
+		o.kind = 4
+		o.res, err = builtin("swap!").Fn(c2, []MalType{a, add, arg})
 	}
 	o.failed = err != nil
 	o.ret = tick()
@@ -134,6 +140,13 @@ func linearizable(init int, ops []op, final MalType) bool {
 				match = !ops[i].failed && isInt && vrt.EqInt(r, nv)
 			case 3:
 				match = ops[i].failed // a failing update leaves the value unchanged
+			case 4: // an update that may give up (its evaluation was cancelled): applied, or nothing changed
+				if ops[i].failed {
+					match = true
+				} else {
+					nv = val + ops[i].arg
+					match = isInt && vrt.EqInt(r, nv)
+				}
 			}
 			used[i] = true
 			any = vrt.Or(any, vrt.And(match, rec(done+1, nv)))
@@ -151,7 +164,7 @@ func Harness_atom() {
 	T := vrt.Param("threads", 2)
 	K := vrt.Param("ops", 2)
 	init := vrt.Int("init")
-	nkinds := vrt.Param("kinds", 7)
+	nkinds := vrt.Param("kinds", 8)
 	kinds := make([][]int, T)
 	args := make([][]int, T)
 	for t := 0; t < T; t++ {
